@@ -23,6 +23,13 @@ declare -A CHECKS=(
  [C13-m5]="C13" [C13-m6]="C13" [C14-m5]="C14" [C14-m6]="C14 C10" [C15-m5]="C15" [C15-m6]="C15"
  [C16-m5]="C16" [C16-m6]="C16 C01" [C17-m5]="C17" [C17-m6]="C17" [C18-m5]="C18" [C18-m6]="C18"
  [C19-m5]="C19" [C19-m6]="C19"
+ [C01-m7]="C01 C16" [C01-m8]="C01 C04 C07" [C02-m7]="C02 C06 C19" [C02-m8]="C02 C06" [C03-m7]="C03" [C03-m8]="C03 C11"
+ [C04-m7]="C04 C01" [C04-m8]="C04 C01 C05" [C05-m7]="C05 C06" [C05-m8]="C05 C13" [C06-m7]="C06" [C06-m8]="C06 C02"
+ [C07-m7]="C07 C06" [C07-m8]="C07 C06" [C08-m7]="C08 C17" [C08-m8]="C08" [C09-m7]="C09" [C09-m8]="C09 C17"
+ [C10-m7]="C10" [C10-m8]="C10 C07" [C11-m7]="C11" [C11-m8]="C11" [C12-m7]="C12" [C12-m8]="C12"
+ [C13-m7]="C13 C17" [C13-m8]="C13 C15" [C14-m7]="C14 C17" [C14-m8]="C14" [C15-m7]="C15 C18" [C15-m8]="C15"
+ [C16-m7]="C16 C01" [C16-m8]="C16 C09" [C17-m7]="C17 C03" [C17-m8]="C17" [C18-m7]="C18" [C18-m8]="C18 C15"
+ [C19-m7]="C19" [C19-m8]="C19"
 )
 for d in /verif/seeded/*/; do
   n=$(basename "$d"); [[ "$n" =~ $FILTER ]] || continue
